@@ -422,17 +422,23 @@ func (m *model) checkShow(p *page, step int, kind string, soft *[]softKnown) err
 			if havePrev {
 				prev = m.prev[i]
 			}
+			// the known divergence, observed exactly: the cell is the last column,
+			// holds a wide rune, and the page shows that rune (with the right style)
+			// where the documentation promises a single width space
+			wideNotBlanked := func() bool {
+				if lastColWide && w.styleMismatch(pc) == "" && pc.Text == string(append([]rune{c.r}, c.comb...)) {
+					*soft = append(*soft, softKnown{idWideLastCol, fmt.Sprintf("%s: cell (%d,%d) is the last column of a %dx%d screen and holds the wide rune %+q: the page shows %+q, documented (Screen.SetContent) is a single width space", where, x, y, m.w, m.h, c.r, pc.Text)})
+					return true
+				}
+				return false
+			}
 			switch {
 			case changed:
-				if d := w.mismatch(pc); d != "" {
-					if lastColWide && w.styleMismatch(pc) == "" && pc.Text == string(append([]rune{c.r}, c.comb...)) {
-						*soft = append(*soft, softKnown{idWideLastCol, fmt.Sprintf("%s: cell (%d,%d) is the last column of a %dx%d screen and holds the wide rune %+q: the page shows %+q, documented (Screen.SetContent) is a single width space", where, x, y, m.w, m.h, c.r, pc.Text)})
-					} else {
-						return fmt.Errorf("%s: page cell (%d,%d) differs from the logical contents (rune %#x comb %x style %+v, default style %+v): %s; drawn in this Show: %v; page cell %+v", where, x, y, c.r, c.comb, c.st, m.def, d, drawn, pc)
-					}
+				if d := w.mismatch(pc); d != "" && !wideNotBlanked() {
+					return fmt.Errorf("%s: page cell (%d,%d) differs from the logical contents (rune %#x comb %x style %+v, default style %+v): %s; drawn in this Show: %v; page cell %+v", where, x, y, c.r, c.comb, c.st, m.def, d, drawn, pc)
 				}
 			case either:
-				if d := w.mismatch(pc); d != "" && !(havePrev && pc == prev) {
+				if d := w.mismatch(pc); d != "" && !(havePrev && pc == prev) && !wideNotBlanked() {
 					return fmt.Errorf("%s: page cell (%d,%d) is neither the up-to-date rendering (%s) nor what the previous Show left (%+v): %+v", where, x, y, d, prev, pc)
 				}
 			default:
